@@ -82,19 +82,19 @@ func init() {
 		s := mk("C05", 0)(tier, seed)
 		if tier != "thorough" {
 			// quick: a seeded third of the from-squares per side plus the king/rook/pawn home squares
-			s.Instances = sampleFrom(s.Instances, seed, 8)
-			s.Bounds = append(s.Bounds, "quick tier: 8 from-squares (both sides each; always e1, e8, a1, h8, e2, e7 plus 2 seeded by VERIF_SEED); thorough: all 64")
+			s.Instances = sampleFrom(s.Instances, seed, 10)
+			s.Bounds = append(s.Bounds, "quick tier: 10 from-squares (both sides each; always e1, e8, a1, h8, e2, e7, d5, e4 plus 2 seeded by VERIF_SEED); thorough: all 64")
 		}
 		return s
 	}
 	Reg["C01"] = func(tier string, seed int64) *Spec {
 		s := mk("C01", 1)(tier, seed)
 		if tier != "thorough" {
-			s.Instances = sampleFrom(s.Instances, seed+1, 7)
+			s.Instances = sampleFrom(s.Instances, seed+1, 9)
 		}
 		s.Native = []NativeRun{{"movegen", "VpV_Corpus"}}
 		s.Bounds = append(s.Bounds,
-			"generated set: per (side, from-square) case, symbolic to-square and promotion bits: emitted at most once, and emitted iff pseudo-legal by the mailbox FIDE specification (castling conditions included); quick: 7 from-squares (e1, e8, a1, h8, e2, e7 and one seeded) for both sides, thorough: all 64",
+			"generated set: per (side, from-square) case, symbolic to-square and promotion bits: emitted at most once, and emitted iff pseudo-legal by the mailbox FIDE specification (castling conditions included); quick: 9 from-squares (e1, e8, a1, h8, e2, e7, d5, e4 and one seeded) for both sides, thorough: all 64",
 			"legality filter: per concrete (side, from, to, promotion) case from an arbitrary valid position: MakeMove followed by InCheck rejects exactly the moves after which the mover's king is attacked in the specification's successor; quick: seeded sample of the case split, thorough: eight times the quick sampling rates (tier `exhaustive`: all 3760 cases)")
 		s.Assumptions = append(s.Assumptions, "FIDE legality = pseudo-legal by VpPseudoLegal and own king not attacked in VpMakeSpec's successor (harness/board/spec.go); the specification layer is compared natively with the engine on the repo's test positions on every run")
 		s.Instances = append(s.Instances, stepInstancesDiv("VpH_C01_filter", tier, seed, 2, 1, 1, nil)...)
@@ -105,10 +105,11 @@ func init() {
 	}
 }
 
-// sampleFrom keeps n from-squares per side (always e1/e8, a1, h8, e2, e7 when present) of a (stm, from) case split.
+// sampleFrom keeps n from-squares per side (always e1/e8, a1, h8, e2, e7 and the en-passant ranks d5, e4 when present)
+// of a (stm, from) case split.
 func sampleFrom(in []run.Instance, seed int64, n int) []run.Instance {
 	rng := rand.New(rand.NewSource(seed + 7))
-	keep := map[int64]bool{4: true, 60: true, 0: true, 63: true, 12: true, 52: true}
+	keep := map[int64]bool{4: true, 60: true, 0: true, 63: true, 12: true, 52: true, 35: true, 28: true}
 	for len(keep) < n {
 		keep[int64(rng.Intn(64))] = true
 	}
